@@ -59,6 +59,12 @@ CHECKS.update({
     note="Trusted: TLC, Resolve.tla, the harness' case folding. Long names that are ambiguous or shadowed get no verdict. Known findings: the v2.1 RX1_25 and 2.7/2.8.2 PV1_52 table defects.",
     ref="DESIGN.md §4 C14, §3.6"),
 })
+CHECKS.update({
+ "C15": dict(technique="TLA+ transcription of the header functions with total accessors (Header.tla) model-checked by TLC for crash-freedom (with the unguarded 1.3.x variant as negative control); TLC-enumerated mutation plans applied to seed messages; outcome classes judged by the TLC trace specification HeaderTrace",
+    text="TLC pushes every abstract header shape (prefix x separator string x number of fields x version) through the transcription of _split_msh / get_message_type and shows no index is read past the end; the unguarded variant is refuted. All mutation plans of depth <= 2 over 13 operators x 6 arguments (truncate, delete/duplicate delimiters, separator strings of length 0-6, dropped header fields, versions, garbled names, blank lines/line endings, junk, swapped lines, MSH-9 shapes, case, very long fields) are applied to 7 seed messages, plus truncation points, token junk and, per version, messages carrying every declared segment name; for each input and both levels and group-finding modes TLC checks: parse_message and get_message_type return or raise an HL7apyException (ValueError allowed under STRICT), and a parsed message encodes and validate(return_errors=True) returns a report.",
+    note="Trusted: TLC, Header.tla, the isinstance(HL7apyException) test done by the harness. Agreement between the transcription's outcome class and the real get_message_type is reported as drift only.",
+    ref="DESIGN.md §4 C15, §3.8"),
+})
 NOT_YET = {}
 def main():
     props = [json.loads(l) for l in open(os.path.join(HERE, "properties.jsonl"))]
